@@ -89,7 +89,7 @@ def dtype_case(rng):
     """Models whose series are not float64: `dtype=int` (integer-valued scripts: a pass either repeats the values or
     moves them by 1) and `dtype=float32` (all script values are exactly representable).  Status, iteration count,
     result and convergence must follow the same rules."""
-    dt = rng.choice(['int', 'float32'])
+    dt = rng.choice(['int', 'float32', 'float32', 'object'])   # object: Python floats in object arrays
     n = rng.choice([1, 2, 3, 4])
     nE = rng.choice([1, 2, 3])
     check = sorted(rng.sample(range(nE), rng.choice([nE, nE, max(nE - 1, 0)])))
@@ -102,7 +102,7 @@ def dtype_case(rng):
     o = mkopts(rng.choice([0, 0, 1, 2, M]), M, rng.choice([0, 0, 0, -1, 1]), rng.choice(['raise', 'ignore']),
                rng.choice(ERRORS), rng.choice([True, False]))
     vals = [[float(rng.choice([0, 1, -2, 3, 100, i + p])) for p in range(n)] for i in range(nE)]
-    if dt == 'float32' and rng.random() < 0.2:       # pre-existing non-finite value (float32 holds them just as float64)
+    if dt in ('float32', 'object') and rng.random() < 0.2:       # pre-existing non-finite value (float32 holds them just as float64)
         vals[rng.randrange(nE)][rng.randrange(n)] = rng.choice([float('nan'), float('inf'), float('-inf')])
     pos = t + n if t < 0 else t
     case = base_case(n, nE, check, t, o, {pos: seq}, vals=vals, tol=rng.choice([0.5, 0.25, 1.0]) if dt == 'int' else sc.TOL)
